@@ -875,6 +875,7 @@ class _Session:
         self.watching = False
         self.job_actions: dict[int, int] = {}
         self.sql_watchdog = {"n": 0, "tripped": False}
+        self.dead_tasks: list = []
 
     # -- idle hook of the event loop ----------------------------------------------------------
 
@@ -982,6 +983,8 @@ class _Session:
                 self.snapshot[suffix] = None
         self.abort_text = "crashed: " + text
         self.abort = SimCrash(self.abort_text)
+        with contextlib.suppress(RuntimeError):
+            self.dead_tasks.append(asyncio.current_task())
         raise self.abort
 
     # -- the replaced launch_command ----------------------------------------------------------
@@ -1649,11 +1652,12 @@ class SimDirector:
 
     def set_script(self, label: str, script, file: str | None = None):
         """Replace the script of `label`; when it has a file (`plan.py` for the boot step, or
-        `file`), rewrite that file with the new fingerprint so the plan step sees a change."""
+        `file`), rewrite that file with the new fingerprint so the plan step sees a change.
+        `file=""`: do not touch any file (the caller edits the file itself)."""
         self.project.scripts[label] = script
         if file is None and label == "./plan.py":
             file = "plan.py"
-        if file is not None:
+        if file:
             self._write_file(file, plan_file(script), None, mkdir=True)
 
     def files(self) -> dict[str, bytes]:
@@ -1944,7 +1948,12 @@ class SimDirector:
             global _CURRENT
             previous = _CURRENT
             _CURRENT = session  # closing coroutines may run `finally` blocks of the real code
+            nlog = len(session.log)
             try:
+                for task in session.dead_tasks:
+                    if task is not None and task.done() and not task.cancelled():
+                        with contextlib.suppress(BaseException):
+                            task.exception()
                 for task in list(asyncio.all_tasks(loop)):
                     task._log_destroy_pending = False
                     if task.done():
@@ -1955,6 +1964,8 @@ class SimDirector:
                         task.get_coro().close()
             finally:
                 _CURRENT = previous
+                # What the dying coroutines logged is an artefact of the teardown.
+                del session.log[nlog:]
         if session.inspect is not None:
             with contextlib.suppress(Exception):
                 session.inspect.close()
